@@ -221,8 +221,8 @@ def magnitudes(cfg, rng):
     return u, gen.extreme_digits(U, rng) >> (D * rng.randrange(N))
 
 
-def requests(cfg, rng, n, tier, part, nparts, st):
-    if cfg.bits == 8:
+def requests(cfg, rng, n, tier, part, nparts, st, exhaustive=True):
+    if cfg.bits == 8 and exhaustive:
         lo, hi = split_range(65536, part, nparts)
         for i in range(lo, hi):
             yield 'dr', (cfg.val(i & 255), cfg.val(i >> 8))
@@ -230,7 +230,7 @@ def requests(cfg, rng, n, tier, part, nparts, st):
                 yield 'dd', (cfg.val(i & 255), (i >> 8) & 255)
         st['exhaustive'].append('%s: all 2^16 (n, d) pairs' % cfg.name)
         return
-    if cfg.bits == 16 and cfg.dbits == 8:
+    if cfg.bits == 16 and cfg.dbits == 8 and exhaustive:
         # smallest type that runs Algorithm D: all dividends against sampled two-digit divisors
         k = 2 if tier == 'quick' else 16
         rr = __import__('random').Random(cfg.name + str(k))
